@@ -384,17 +384,17 @@ func (eng *Engine) runTop(c *FnCtx, fn *ssa.Function, fs *FuncSpec) {
 		for k, v := range ifaceVars {
 			renv.vars[k] = v
 		}
-		if ifs != nil {
-			for i, en := range ifs.Ensures {
-				c.oblige("ensures", fmt.Sprintf("%s.ensures%d", fs.Implements, i+1), clauseTags(en, c.tags), r.cond, renv.evalBool(en.Expr), f.pos(fn.Pos()), "interface contract "+fs.Implements+": "+en.Src)
-			}
-		}
 		for i, en := range fs.Ensures {
 			label := en.Name
 			if label == "" {
 				label = fmt.Sprintf("ensures%d", i+1)
 			}
 			c.oblige("ensures", label, clauseTags(en, c.tags), r.cond, renv.evalBool(en.Expr), f.pos(fn.Pos()), en.Src)
+		}
+		if ifs != nil {
+			for i, en := range ifs.Ensures {
+				c.oblige("ensures", fmt.Sprintf("%s.ensures%d", fs.Implements, i+1), clauseTags(en, c.tags), r.cond, renv.evalBool(en.Expr), f.pos(fn.Pos()), "interface contract "+fs.Implements+": "+en.Src)
+			}
 		}
 		for _, fr := range fs.Fresh {
 			v, ok := renv.vars[fr]
